@@ -449,6 +449,53 @@ pub fn c02prune() -> bool {
     bad
 }
 
+/// C08 / C01 (query c08_get_range, part "any range a peer can send"): a store that holds TWO documents; one of them is asked,
+/// through the real `sync_process_message`, about ranges whose end points lie outside its own namespace (below, above, both).
+/// The ordered map of ONE document answers with that document's entries only: an entry of the other document in a reply
+/// (or counted into a fingerprint reply that then differs from the document's own) means the defect manifests.
+pub fn c08foreign() -> bool {
+    let (da, db) = (Doc::new(40), Doc::new(50));
+    let mut bad = false;
+    let lo = RecordIdentifier::new(crate::NamespaceId::from(&[0u8; 32]), crate::AuthorId::from(&[0u8; 32]), b"");
+    let hi = RecordIdentifier::new(crate::NamespaceId::from(&[0xffu8; 32]), crate::AuthorId::from(&[0xffu8; 32]), b"\xff");
+    for (target, other) in [(&da, &db), (&db, &da)] {
+        let mut store = Store::memory();
+        fill(&mut store, target, &[target.entry(0, b"mine", 10, 1)]);
+        store.close_replica(target.ns.id());
+        fill(&mut store, other, &[other.entry(0, b"private-1", 10, 1), other.entry(1, b"private-2", 20, 2)]);
+        store.close_replica(other.ns.id());
+        let inside = target.id(0, b"mine");
+        // (x, y): spanning everything; from below the document to inside it; from inside it to above; wrap-around with y above / x below
+        let ranges = vec![(lo.clone(), hi.clone()), (lo.clone(), inside.clone()), (inside.clone(), hi.clone()), (hi.clone(), lo.clone()), (inside.clone(), lo.clone()), (hi.clone(), inside.clone()),
+                          (other.id(0, b""), other.id(1, b"zzzz")), (other.id(1, b"zzzz"), other.id(0, b""))];
+        for (x, y) in ranges {
+            let mut replica = store.open_replica(&target.ns.id()).unwrap();
+            let msg = message(vec![MessagePart::RangeFingerprint(RangeFingerprint { range: Range::new(x.clone(), y.clone()), fingerprint: Fingerprint([7u8; 32]) })]);
+            let mut outcome = crate::sync::SyncOutcome::default();
+            let reply = block_on(replica.sync_process_message(msg, [9u8; 32], &mut outcome));
+            drop(replica);
+            store.close_replica(target.ns.id());
+            let Ok(reply) = reply else { continue };
+            let Some(reply) = reply else { continue };
+            let parts: Vec<MessagePart<SignedEntry>> = unsafe { std::mem::transmute::<Message<SignedEntry>, Vec<MessagePart<SignedEntry>>>(reply) };
+            for p in &parts {
+                if let MessagePart::RangeItem(item) = p {
+                    for (e, _) in &item.values {
+                        if e.id().namespace() != target.ns.id() {
+                            if !bad {
+                                eprintln!("c08foreign: asked about range ({:?} .. {:?}) of document {}, the reply carries an entry of document {}: key {:?}",
+                                    &x.as_ref()[..4], &y.as_ref()[..4], target.ns.id().fmt_short(), e.id().namespace().fmt_short(), String::from_utf8_lossy(e.key()));
+                            }
+                            bad = true;
+                        }
+                    }
+                }
+            }
+        }
+    }
+    bad
+}
+
 /// C02 (local write paths): a deletion issued before anything matches still leaves its marker, which rejects an older entry
 /// that arrives later (order independence); insert refuses what would be a malformed deletion marker.
 pub fn c02local() -> bool {
